@@ -167,6 +167,8 @@ def x_jacobi(form):
         return np.float64(-0.45)
     if form == '1d':
         return np.linspace(-1, 1, 7)
+    if form == 'wide':      # the end points and arguments beyond the interval of orthogonality (polynomials are defined there too)
+        return np.array([-1.5, -1.0, -0.25, 0.0, 1.0, 1.0 + 2 ** -40, 1.25])
     return np.cos(np.arange(12) * 0.7 + 0.2).reshape(3, 4)
 
 
@@ -177,12 +179,14 @@ def ut_coords(form):
         return np.float64(0.35), np.float64(2.1)
     if form == '1d':
         return np.linspace(0, 1, 7), np.linspace(-3, 3, 7)
+    if form == 'wide':      # a signed radial cut through the centre and radii beyond the normalisation radius (corners of a square grid)
+        return np.array([-1.2, -1.0, -0.5, 0.0, 1.0, 1.0 + 2 ** -40, 1.02, 1.3, 2 ** 0.5]), np.linspace(-3, 3, 9)
     u = (0.05 + 0.9 * np.mod(np.arange(12) * 0.381966, 1.0)).reshape(3, 4)
     t = (np.arange(12) * 0.9 - 4.0).reshape(3, 4)
     return u, t
 
 
-XFORMS = ['pyfloat', 'np0d', '1d', '2d']
+XFORMS = ['pyfloat', 'np0d', '1d', '2d', 'wide']
 
 
 # ---------------------------------------------------------------------------------------------
